@@ -59,4 +59,15 @@ theorem mdl_optimal_partial {τ : Type} (t : Table (XR K)) (P : Nat) (hP : 1 ≤
   have h1 := top_le_every_variant E t P hP out h r0 rest hout (line x).idx hidx (line x) hv hnum
   exact le_trans' hnum h1 hle
 
+/-! ### non-vacuity: the hypotheses are met by the concrete table of C06 (ties, +inf, NaN, 2 ranks) -/
+
+/-- the table has a first row with description length 6, so `top_le_every_variant` applies … -/
+example : (main (ops ESR.C06.exE) ESR.C06.exT 2).isSome = true ∧
+    (((main (ops ESR.C06.exE) ESR.C06.exT 2).getD []).head?.map (·.dl)) = some (fin 6) := by
+  constructor <;> decide +kernel
+
+/-- … and its conclusion holds on it: no variant with a numeric description length is below the top row's 6 -/
+example : ESR.C06.exT.rows.all (fun v => isNaN (dl (ops ESR.C06.exE) v) || !lt (dl (ops ESR.C06.exE) v) (fin 6)) = true := by
+  decide +kernel
+
 end ESR.C04
